@@ -39,12 +39,12 @@ fn diff_pairs() -> Vec<((&'static str, &'static str), (&'static str, &'static st
 
 fn run(r: &mut Run) -> Result<(), MachineryError> {
     let t = r.tier;
-    text_space(r, "C08/texts", &[L, SP, NL, HY, W], t.pick(5, 7), &gamma(), M_C08, WidthMode::Display, 4)?;
-    pmachine::p_space(r, "C08/paragraph-machine", t.pick(3, 4), true, false)?;
+    text_space(r, "C08/texts", &[L, SP, NL, HY, W], t.pick(5, 8), &gamma(), M_C08, WidthMode::Display, 4)?;
+    pmachine::p_space(r, "C08/paragraph-machine", t.pick(3, 5), true, false)?;
 
     // differential: what follows the indent depends only on the indents' display widths and emptiness
     let alpha = [L, SP, NL, HY, W, OP];
-    let n = t.pick(4, 6);
+    let n = t.pick(4, 7);
     let g = Gamma { seps: seps(), algs: algs_default(), spls: vec![Spl::None, Spl::Hyphen], bws: vec![true, false], indents: vec![("", "")], crlf: vec![false] };
     let bases = g.bases();
     let pairs = diff_pairs();
